@@ -24,6 +24,7 @@
 #include <boost/asio/ssl.hpp>
 #include <sys/stat.h>
 #include <algorithm>
+#include <deque>
 #include <set>
 
 using namespace icinga;
@@ -42,6 +43,8 @@ static std::string l_SeenFromZone;
 static bool l_HandlerRan = false;
 static ConfigObject::Ptr l_HandlerSecobj;
 static bool l_HandlerLog = true;
+static bool l_HandlerAccess = false;     // rt_net: apply the event handlers' CanAccessObject test before processing
+static bool l_HandlerAccepted = false;
 
 static std::string EpName(int e) { char b[16]; snprintf(b, sizeof b, "e%03d", e); return b; }
 static std::string ZName(int z) { return "z" + std::to_string(z); }
@@ -69,6 +72,12 @@ static Value RelayHandler(const MessageOrigin::Ptr& origin, const Dictionary::Pt
 {
 	l_HandlerRan = true;
 	l_SeenFromZone = origin->FromZone ? std::string(origin->FromZone->GetName().GetData()) : "-";
+	if (l_HandlerAccess) {
+		// what every event handler in clusterevents.cpp does before it processes and re-relays
+		if (origin->FromZone && !origin->FromZone->CanAccessObject(l_HandlerSecobj))
+			return Empty;
+		l_HandlerAccepted = true;
+	}
 	// what every event handler in clusterevents.cpp does: a fresh message, relayed with the origin it was given
 	Dictionary::Ptr message = new Dictionary({ { "jsonrpc", "2.0" }, { "method", "verif::Relay" }, { "params", params } });
 	l_Listener->SyncRelayMessage(origin, l_HandlerSecobj, message, l_HandlerLog);
@@ -321,6 +330,145 @@ VOP(rt_step)
 	Out(o.str());
 	Out("rtd sent=" + Names(sent) + " skip=" + Names(skipped) + " persist=" + (after > before ? "1" : "0"));
 	ClearClients();
+}
+
+// rt_net s=<e> tz=<z> links=<a-b.c-d|-> sched=fifo|lifo|rnd seed=<n> mode=relay|nextcheck
+// One event, the whole network, real code at every node: the event originates at endpoint s (about the security
+// object of zone tz); every message the real SyncRelayMessage puts on a connection's outgoing queue is kept in flight
+// (the queued JSON itself) and later delivered, in the chosen schedule, to the real JsonRpcConnection::MessageHandler
+// of the receiving node (identity, local endpoint and connectivity row switched per delivery; connectivity = the
+// symmetric link set).  mode=relay: the registered verif::Relay handler (CanAccessObject test, then SyncRelayMessage
+// with the origin the real code built).  mode=nextcheck: the REAL handler chain event::SetNextCheck ->
+// ClusterEvents::NextCheckChangedAPIHandler -> Checkable::SetNextCheck -> OnNextCheckChanged ->
+// ClusterEvents::NextCheckChangedHandler -> ApiListener::RelayMessage (asynchronous relay queue, joined) ->
+// SyncRelayMessage; "processed" = the handler changed the host's next_check.
+VOP(rt_net)
+{
+	int s = a.num("s");
+	std::string tz = a.str("tz", "-");
+	std::string mode = a.str("mode", "relay");
+	std::string sched = a.str("sched", "fifo");
+	unsigned long rng = (unsigned long)a.num("seed", 1) * 2654435761UL + 12345UL;
+	if (tz == "-") throw std::runtime_error("rt_net needs a target zone");
+
+	std::map<int, std::set<int>> conn;
+	std::string links = a.str("links", "-");
+	if (links != "-" && !links.empty()) {
+		for (auto& p : Split(links, '.')) {
+			auto ab = Split(p, '-');
+			if (ab.size() != 2) throw std::runtime_error("bad link");
+			int x = std::stoi(ab[0]), y = std::stoi(ab[1]);
+			if (x == y) continue;
+			conn[x].insert(y); conn[y].insert(x);
+		}
+	}
+
+	ConfigObject::Ptr secobj;
+	Host::Ptr host;
+	if (l_ZoneGlobal[std::stoi(tz)]) secobj = CheckCommand::GetByName("rh" + tz);
+	else { host = Host::GetByName("rh" + tz); secobj = host; }
+	if (!secobj) throw std::runtime_error("unknown target zone");
+	if (mode == "nextcheck" && !host) throw std::runtime_error("mode=nextcheck needs a host target");
+
+	struct Msg { int from; int to; Dictionary::Ptr json; };
+	std::deque<Msg> q;
+	std::vector<int> proc;
+	int deliv = 0;
+	size_t neps = 0;
+	for (auto& kv : l_ZoneEps) neps += kv.second.size();
+	double now = Utility::GetTime();
+	double value = now + 600 + (double)(CaseId() % 97);
+
+	std::map<int, JsonRpcConnection::Ptr> newest;
+	auto setup = [&](int me) {
+		Endpoint::Ptr local = Endpoint::GetByName(EpName(me));
+		if (!local) throw std::runtime_error("unknown endpoint");
+		l_Listener->SetIdentity(EpName(me));
+		l_Listener->m_LocalEndpoint = local;
+		ClearClients();
+		newest.clear();
+		for (int e : conn[me]) {
+			Endpoint::Ptr ep = Endpoint::GetByName(EpName(e));
+			if (!ep) throw std::runtime_error("unknown endpoint in links");
+			JsonRpcConnection::Ptr cl = MakeClient(EpName(e), true);
+			newest[e] = cl;
+			std::unique_lock<std::mutex> lock(ep->m_ClientsLock);
+			ep->m_Clients.insert(cl);
+		}
+		for (const Endpoint::Ptr& ep : ConfigType::GetObjectsByType<Endpoint>()) {
+			ep->SetLocalLogPosition(0);
+			ep->SetRemoteLogPosition(0);
+		}
+	};
+	auto collect = [&](int me) {
+		l_Listener->m_RelayQueue.Join();
+		l_Io.restart();
+		l_Io.poll();
+		for (auto& kv : newest)
+			for (const String& js : kv.second->m_OutgoingMessagesQueue)
+				q.push_back(Msg{ me, kv.first, JsonDecode(js) });
+		ClearClients();
+		newest.clear();
+	};
+
+	bool wasActive = l_Listener->IsActive();
+	try {
+		if (mode == "nextcheck") l_Listener->SetActive(true, true);
+		// the event originates at s
+		setup(s);
+		if (mode == "nextcheck") {
+			host->SetNextCheck(0, true);
+			host->SetNextCheck(value, false, Empty);
+		} else {
+			Dictionary::Ptr params = new Dictionary({ { "case", (double)CaseId() } });
+			Dictionary::Ptr message = new Dictionary({ { "jsonrpc", "2.0" }, { "method", "verif::Relay" }, { "params", params } });
+			l_Listener->SyncRelayMessage(nullptr, secobj, message, false);
+		}
+		collect(s);
+		proc.push_back(s);
+
+		size_t guard = 4 * neps + 16;
+		while (!q.empty() && (size_t)deliv < guard) {
+			size_t idx = 0;
+			if (sched == "lifo") idx = q.size() - 1;
+			else if (sched == "rnd") { rng = rng * 6364136223846793005UL + 1442695040888963407UL; idx = (size_t)((rng >> 33) % q.size()); }
+			Msg m = q[idx];
+			q.erase(q.begin() + idx);
+			deliv++;
+			setup(m.to);
+			JsonRpcConnection::Ptr client;
+			auto it = newest.find(m.from);
+			client = (it != newest.end()) ? it->second : MakeClient(EpName(m.from), true);
+			bool processed = false;
+			if (mode == "nextcheck") {
+				host->SetNextCheck(0, true);
+				client->MessageHandler(m.json);
+				l_Listener->m_RelayQueue.Join();
+				processed = (host->GetNextCheck() == value);
+			} else {
+				l_HandlerRan = false; l_HandlerAccepted = false; l_HandlerAccess = true;
+				l_HandlerSecobj = secobj; l_HandlerLog = false; l_SeenFromZone = "-";
+				client->MessageHandler(m.json);
+				processed = l_HandlerAccepted;
+				l_HandlerAccess = false; l_HandlerSecobj = nullptr;
+			}
+			collect(m.to);
+			if (processed) proc.push_back(m.to);
+		}
+	} catch (...) {
+		l_HandlerAccess = false; l_HandlerSecobj = nullptr;
+		l_Listener->m_RelayQueue.Join();
+		if (mode == "nextcheck") l_Listener->SetActive(wasActive, true);
+		ClearClients();
+		throw;
+	}
+	l_Listener->m_RelayQueue.Join();
+	if (mode == "nextcheck") l_Listener->SetActive(wasActive, true);
+
+	std::string p;
+	for (int e : proc) { if (!p.empty()) p += "."; p += std::to_string(e); }
+	Out("rtn done");
+	Out("rtnd deliv=" + std::to_string(deliv) + " left=" + std::to_string(q.size()) + " proc=" + (p.empty() ? "-" : p));
 }
 
 // rt_reload order=<z.z.z>: run Zone::OnAllConfigLoaded again for every zone in the given activation order
